@@ -29,7 +29,7 @@ type Rec struct {
 	ID        uint   `gorm:"primaryKey"`
 	Code      string `gorm:"uniqueIndex"`
 	Name      string
-	Age       int
+	Age       int `gorm:"index"` // conditions served from this index scan rows in (age, key) order
 	Note      string
 	CreatedAt time.Time
 	UpdatedAt time.Time
@@ -39,7 +39,7 @@ type SRec struct {
 	ID        uint   `gorm:"primaryKey"`
 	Code      string `gorm:"uniqueIndex"`
 	Name      string
-	Age       int
+	Age       int `gorm:"index"`
 	Note      string
 	CreatedAt time.Time
 	UpdatedAt time.Time
@@ -126,6 +126,7 @@ type Attr struct {
 	Col  string // "name" | "age" | "note" | "code"
 	S    string
 	I    int
+	L    []int // col IN (L...) - only as a map condition
 }
 
 type Op struct {
@@ -143,6 +144,9 @@ type Op struct {
 }
 
 func (a Attr) String() string {
+	if a.L != nil {
+		return fmt.Sprintf("%s:%s IN %v", a.Form, a.Col, a.L)
+	}
 	if a.Col == "age" {
 		return fmt.Sprintf("%s:%s=%d", a.Form, a.Col, a.I)
 	}
@@ -246,7 +250,9 @@ func condValue(conds []Attr, form string, soft bool) interface{} {
 	if strings.HasSuffix(form, "map") {
 		m := map[string]interface{}{}
 		for _, c := range conds {
-			if c.Col == "age" {
+			if c.L != nil {
+				m[c.Col] = append([]int(nil), c.L...)
+			} else if c.Col == "age" {
 				m["age"] = c.I
 			} else {
 				m[c.Col] = c.S
@@ -479,7 +485,15 @@ func expect(m *Model, o Op) (exp Outcome) {
 					return false
 				}
 			case "age":
-				if r.Age != c.I {
+				if c.L != nil {
+					in := false
+					for _, v := range c.L {
+						in = in || r.Age == v
+					}
+					if !in {
+						return false
+					}
+				} else if r.Age != c.I {
 					return false
 				}
 			}
@@ -520,7 +534,9 @@ func expect(m *Model, o Op) (exp Outcome) {
 	// not found: conditions + Attrs + Assign
 	r := Row{}
 	for _, c := range o.Conds {
-		set(&r, c)
+		if c.L == nil { // an IN condition is no equality: it initialises nothing
+			set(&r, c)
+		}
 	}
 	if o.Attrs != nil {
 		set(&r, *o.Attrs)
@@ -788,6 +804,10 @@ func genCondAttr(t *rapid.T, label, col, form string) Attr {
 			lo = 1 // a zero struct field is no condition
 		}
 		a.I = rapid.IntRange(lo, 3).Draw(t, label+".i")
+		if !isStruct && rapid.IntRange(0, 2).Draw(t, label+".in") == 0 {
+			// slice value = IN; served from the age index, so the scan order is not the key order
+			a.L = []int{a.I, (a.I + 1 + rapid.IntRange(0, 2).Draw(t, label+".in2")) % 4}
+		}
 	case "name":
 		vals := []string{"ann", "bob", "o'neil", ""}
 		if isStruct {
